@@ -14,7 +14,7 @@
 (*               order);                                                    *)
 (*   otherwise the failing clause is named.  Verdicts are total: a failing  *)
 (* record is reported and validation continues with the next one.           *)
-EXTENDS Decoder, SmilesReader, Json
+EXTENDS Decoder, SmilesReader, SelfiesLexer, Json
 (* DecParams (written by the harness) defines  Tr == JsonDeserialize(       *)
 (* IOEnv.TRACE_FILE)  - a constant definition, read once - and KnownSyms as *)
 (* the symbols occurring in it.                                             *)
@@ -23,10 +23,19 @@ N  == Len(Tr)
 VARIABLES d, tid, nbad
 vars == <<d, tid, nbad>>
 
-TokensOf(i) == Tr[i].inp
+(* A record may carry raw text instead of tokens (C08): it is scanned by the  *)
+(* specification's lexer; a hanging '[' is a DecoderError.  Outside the       *)
+(* well-formed region only the outcome kind is judged (totality).             *)
+IsRaw(i)    == "raw" \in DOMAIN Tr[i]
+ScanOf(i)   == Scan(Tr[i].raw)
+TokensOf(i) == IF IsRaw(i) THEN (IF ScanOf(i).ok THEN ScanOf(i).toks ELSE <<>>) ELSE Tr[i].inp
+StartState(i) ==
+  IF IsRaw(i) /\ ~ScanOf(i).ok THEN [InitState(<<>>, TRUE) EXCEPT !.pc = "error"]
+  ELSE InitState(TokensOf(i), TRUE)
+Precise(i)  == ~IsRaw(i) \/ WellFormed(Tr[i].raw)
 
 Init == /\ tid = 1 /\ nbad = 0
-        /\ d = IF N >= 1 THEN InitState(TokensOf(1), TRUE) ELSE [InitState(<<>>, TRUE) EXCEPT !.pc = "done"]
+        /\ d = IF N >= 1 THEN StartState(1) ELSE [InitState(<<>>, TRUE) EXCEPT !.pc = "done"]
 
 DecMarks(dd) ==
   UNION {LET b == dd.bonds[j] IN
@@ -71,16 +80,17 @@ StepAct ==
 
 Judge ==
   /\ tid <= N /\ Terminal(d)
-  /\ LET v == Verdict(d, Tr[tid])
+  /\ LET v == IF Precise(tid) THEN Verdict(d, Tr[tid])
+              ELSE IF Tr[tid].kind \in {"ok", "DecoderError"} THEN "" ELSE "exception type " \o Tr[tid].kind
      IN IF v = "" THEN nbad' = nbad
         ELSE /\ PrintT(ToJson([ev |-> "MISMATCH", tid |-> tid, clause |-> v, spec_kind |-> Outcome(d).kind,
                                spec_out |-> Outcome(d).value]))
              /\ nbad' = nbad + 1
-  /\ (d.pc = "done" /\ Tr[tid].kind = "ok" /\ Tr[tid].out # d.out /\ ~LabelOverflow(d)) =>
+  /\ (Precise(tid) /\ d.pc = "done" /\ Tr[tid].kind = "ok" /\ Tr[tid].out # d.out /\ ~LabelOverflow(d)) =>
          PrintT(ToJson([ev |-> "SEMANTIC", tid |-> tid]))
   /\ LabelOverflow(d) => PrintT(ToJson([ev |-> "OVERFLOW", tid |-> tid]))
   /\ tid' = tid + 1
-  /\ d' = IF tid < N THEN InitState(TokensOf(tid + 1), TRUE) ELSE d
+  /\ d' = IF tid < N THEN StartState(tid + 1) ELSE d
   /\ (tid = N => PrintT(ToJson([ev |-> "DONE", n |-> N, nbad |-> nbad'])))
 
 Next == StepAct \/ Judge
